@@ -99,6 +99,8 @@ struct World {
     has_reffunc_global: bool,
     /// `memory.init` needs a data-count section, which only exists when the base module already used it
     allow_meminit: bool,
+    /// sites injected as function-exit instrumentation (a special mode: lowered at encode time)
+    special_sites: Vec<u32>,
 }
 
 impl World {
@@ -383,9 +385,16 @@ fn decode(wasm: &[u8], w: &World, positional: &Positional) -> Result<Decoded, St
                 let _ = nimp_f;
                 let mut first = true;
                 let mut pending: Option<u32> = None;
+                // tags whose operator has not been seen yet because code was lowered in between (function-exit code goes in
+                // front of a `return_call`, behind its tag): innermost last
+                let mut outer: Vec<u32> = vec![];
                 for op in b.get_operators_reader().map_err(e2s)? {
                     let op = op.map_err(e2s)?;
                     if first {
+                        // the wrapper block of function-exit instrumentation sits in front of the marker
+                        if matches!(op, Operator::Block { .. }) {
+                            continue;
+                        }
                         first = false;
                         let uid = match op {
                             Operator::I32Const { value } if value >= FMARK && value < FMARK + 100_000 => format!("{}", value - FMARK),
@@ -396,9 +405,15 @@ fn decode(wasm: &[u8], w: &World, positional: &Positional) -> Result<Decoded, St
                     }
                     if let Operator::I32Const { value } = op {
                         if value >= SITE0 {
+                            if let Some(s) = pending.take() {
+                                outer.push(s);
+                            }
                             pending = Some((value - SITE0) as u32);
                             continue;
                         }
+                    }
+                    if pending.is_none() && !refs_of(&op).is_empty() && matches!(op, Operator::ReturnCall { .. }) {
+                        pending = outer.pop();
                     }
                     if let Some(s) = pending {
                         let rs = refs_of(&op);
@@ -864,6 +879,7 @@ pub fn run(ctx: &mut Ctx) {
             used_get_vts: vec![],
             has_reffunc_global: false,
             allow_meminit: true,
+            special_sites: vec![],
         };
         let shape = match enumerated {
             Some(e) => ((e % 24) / 3) as usize,
@@ -938,6 +954,10 @@ pub fn run(ctx: &mut Ctx) {
             } else {
                 gen_op(&mut r, &mut w, &import_ids)
             };
+            if let Op::Inj { at: 3, sites, .. } = &op {
+                w.special_sites.extend(sites.iter().map(|s| s.id));
+                ctx.count("inject=function-exit");
+            }
             // ---- token for the model
             let refs = |w: &World, ss: &Vec<Site>| if ss.is_empty() { "-".to_string() } else { ss.iter().map(|s| w.refstr(s)).collect::<Vec<_>>().join("+") };
             let tok = match &op {
@@ -1020,6 +1040,9 @@ pub fn run(ctx: &mut Ctx) {
                         Ret::Encoded(_) => "E".to_string(),
                     });
                     if let Ret::Encoded(b) = ret {
+                        if std::env::var("ORCA_DUMP").is_ok() {
+                            eprintln!("--- base\n{}\n--- encoded\n{}", base.wat, wasmprinter::print_bytes(&b).unwrap_or_default());
+                        }
                         encs.push(Ok(b));
                         if last && double_encode {
                             // C05: encode again without edits
@@ -1172,7 +1195,13 @@ pub fn run(ctx: &mut Ctx) {
                             continue;
                         }
                         match d.sites.get(&s.id) {
-                            None => failures.push((props_of(s.sp).into(), format!("{}-{}-site-missing", s.sp.ch(), class_name(&s.class)), format!("site {}", s.id))),
+                            None => {
+                                // code injected as function-exit instrumentation that is not in the output was lost by the lowering
+                                let special = w.special_sites.contains(&s.id);
+                                let props = if special { format!("{},C22,C17", props_of(s.sp)) } else { props_of(s.sp).to_string() };
+                                let what = if special { "function-exit-code".to_string() } else { class_name(&s.class).to_string() };
+                                failures.push((props, format!("{}-{}-site-missing", s.sp.ch(), what), format!("site {}", s.id)))
+                            }
                             Some(t) => {
                                 let got = resolve(&d, t);
                                 if got != want.to_string() {
@@ -1309,7 +1338,7 @@ fn candidates(w: &World, import_ids: &HashMap<usize, u32>, focus: usize) -> Vec<
             }
             for h in &local_f {
                 for t in &lf {
-                    v.push(Cand::Inj(*h, Sp::F, *t, 1 + (*t % 2)));
+                    v.push(Cand::Inj(*h, Sp::F, *t, 1 + (*t % 3)));
                 }
             }
             for h in &lf {
@@ -1461,7 +1490,7 @@ fn gen_op(r: &mut Rng, w: &mut World, import_ids: &HashMap<usize, u32>) -> Op {
                                 sites.extend(ss);
                             }
                     }
-                    return Op::Inj { h, sites, at: r.below(3) };
+                    return Op::Inj { h, sites, at: r.below(4) };
                 }
             }
             6 => {
@@ -1623,6 +1652,13 @@ fn apply<'a>(m: &mut Module<'a>, op: &Op, w: &World) -> Ret {
             // index 0 is the marker `i32.const`; injecting before instruction 2 keeps the marker first
             let n = fm.body.instructions.len();
             let idx = if *at == 0 { 2.min(n - 1) } else { n - 1 };
+            if *at == 3 {
+                // function-exit instrumentation: a special mode, lowered at encode time (the function keeps its marker in front)
+                fm.func_exit();
+                inject_sites(&mut fm, sites, w);
+                fm.finish_instr();
+                return Ret::Unit;
+            }
             fm.before_at(Location::Module { func_idx: fid, instr_idx: idx });
             inject_sites(&mut fm, sites, w);
             if *at == 2 {
